@@ -225,7 +225,26 @@ def compare(r):
     return mism
 
 
+def vocabulary_checks():
+    bad = voc.selfcheck()
+    if bad:
+        raise lib.Infra("c03 vocabulary is not monotone / not a lattice on its sample domain: %s" % bad[:5])
+    exprs, want = voc.coq_table()
+    got = lib.coq_eval("c03voc", PRELUDE, exprs, per_shard=600)
+    n = 0
+    for e, w, g_ in zip(exprs, want, got):
+        if isinstance(w, tuple):
+            g_ = (g_[0], g_[1])
+        elif isinstance(w, list):
+            g_ = list(g_)
+        if g_ != w:
+            raise lib.Infra("coq/LatEngine/LatVocab.v and gen/c03_vocab.py disagree: %s = %r (Coq) vs %r (python)" % (e, g_, w))
+        n += 1
+    return n
+
+
 def tie(tier, seed, replay):
+    nvoc = vocabulary_checks()
     if replay:
         rp = json.load(open(replay))
         cases = [case_from_json(dict(prog=rp["case"]["prog"], inputs=rp["case"]["inputs"]), "replay_0")]
@@ -280,4 +299,4 @@ def tie(tier, seed, replay):
                 assumptions=["lattice laws of the shipped lattice types: property C16", "generated programs are monotone by construction (vocabulary of monotone operations and upward-closed tests)",
                              "inputs hold at most one row per key of a lattice relation", "values stay far inside u32 / i32",
                              "hash-map iteration order: the model uses a fixed (alternating) order; the compared observables are order-independent by the C03 theorems"],
-                extra=dict(cases_skipped_model_too_slow=nskipped, programs=len(ok), plans_validated=sum(1 for r in ok if r["valid"] is True)))
+                extra=dict(vocabulary_rows_checked_coq_vs_python=nvoc, cases_skipped_model_too_slow=nskipped, programs=len(ok), plans_validated=sum(1 for r in ok if r["valid"] is True)))
